@@ -44,9 +44,9 @@ var execKeyHex = []string{
 }
 
 var (
-	execPool  []common.Address         // ascending; index = address index of the reference
-	execPrivs []types.PrivValidator    // aligned with execPool
-	execBus   *types.EventBus
+	execPool        []common.Address      // ascending; index = address index of the reference
+	execPrivs       []types.PrivValidator // aligned with execPool
+	execBus         *types.EventBus
 	execGenesisTime = time.Unix(1600000000, 0).UTC()
 )
 
@@ -475,7 +475,7 @@ func stepBlock(b execBase, c *execChain, rc *refChain, list *appList, tok int, p
 	nextList, report, kind := applyToken(b, *list, tok)
 	out.kind = kind
 	sig := func(d string) string {
-		return "C12|oracle=executor-history|diff=" + d + "|block=" + kind + "|after=" + prevKind
+		return "C12|oracle=executor-history|diff=" + d
 	}
 	where := fmt.Sprintf("base %s, block %d (%s, after %s), report %v", b.name, height, execTokenNames[tok], prevKind, report)
 	c.app.report[height] = report
@@ -507,9 +507,9 @@ func stepBlock(b execBase, c *execChain, rc *refChain, list *appList, tok int, p
 		out.ended = true
 		return
 	case rej != rejNone:
-		// rejected on both sides: the returned state and the stored state are the state before the block
+		// rejected on both sides: the returned state is the state before the block
 		out.ended = true
-		if chainKey(newState) != beforeKey || chainKey(c.state) != beforeKey || c.store.Load().LastBlockHeight != before.LastBlockHeight {
+		if chainKey(newState) != beforeKey || chainKey(c.state) != beforeKey {
 			out.fs = append(out.fs, finding{sig("state-changed-by-rejected-block"), "a rejected block changed the consensus state; " + where, nil})
 		}
 		return
@@ -704,12 +704,10 @@ func runExecutorStage(depth, seqRounds int) {
 	r.Add("states", int64(len(seen)))
 	r.Set("executor_depth", depth)
 	r.Add("executor_distinct_block_kind_pairs", int64(len(kinds)))
-	for _, need := range []string{"same<-remove", "revert<-repower", "readd<-remove", "remove<-add", "same<-add", "permute<-repower", "empty-report<-remove", "negative<-same", "repower<-genesis"} {
-		found := kinds[need] > 0
-		if depth < 3 && need != "repower<-genesis" {
-			found = true
+	if depth >= 3 {
+		for _, need := range []string{"same<-remove", "revert<-repower", "readd<-remove", "remove<-add", "same<-add", "permute<-repower", "empty-report<-remove", "negative<-same", "repower<-revert", "add<-remove"} {
+			r.Require(kinds[need] > 0, "executor stage: block pair never exercised: "+need)
 		}
-		r.Require(found || depth < 2, "executor stage: block pair never exercised: "+need)
 	}
 	r.Require(r.Get("executor_histories") > 100 && r.Get("executor_histories_rejected_by_both") > 0, "executor stage: too few histories or no rejected report")
 }
